@@ -44,7 +44,7 @@ REGISTERED = True
 
 ISA_MODULES = ('isa_6502', 'isa_8080', 'isa_z80', 'isa_4004', 'isa_pic16', 'isa_msp430', 'isa_avr')
 
-RULE = ('case = slice of one CPU\'s instruction-form table (mnemonic x addressing mode x register; 17 CPU variants of 7 families, 4011 forms, 2047 distinct) x operand sets per form '
+RULE = ('case = slice of one CPU\'s instruction-form table (mnemonic x addressing mode x register; 18 CPU variants of 7 families, ~4100 forms, ~2050 distinct) x operand sets per form '
         '(0, limits, limits+-1, byte-boundary values, 3 (quick) / 40 (thorough) random interior sets, every enumerated register/condition, full cross product of the '
         'enumerated operands up to 1100 combinations in thorough; branch distances limit-2..limit+2 on both sides, same-page targets at both page ends); '
         'legal and out-of-range lines are assembled in separate files; distinct = distinct (cpu, form, operand class per field); '
@@ -58,7 +58,7 @@ MANIFEST = dict(
     category='exploration', design_ref='DESIGN.md §4 C14',
     technique='reference-model monitor: independent per-ISA encoders (tables written from the manufacturers\' instruction-set definitions) judge every emitted line (hook H3 line<->bytes association, code file read by the independent reader) and every rejected line (hook H4)',
     text='Held on the executions of this run: for every form of the reference tables (6502/65SC02/65C02/W65C02S, 8080/8085 in Intel and Zilog syntax, Z80/Z180, 4004/4040, PIC16C84, MSP430 core + emulated, '
-         'AVR AT90S8515/ATmega8/ATmega16), operands at 0, both limits, limits+-1 and random interior values, every register, and branches at every '
+         'AVR AT90S8515/ATmega8/ATmega16/ATmega2560), operands at 0, both limits, limits+-1 and random interior values, every register, and branches at every '
          'distance within 2 of both displacement limits, the assembler emitted exactly the reference bytes at the reference address, and every operand one step outside the encodable range '
          'was rejected with an error at its line (status 2, no code file).',
     note='Trusts the reference tables (documented instruction sets only; no undocumented opcodes, no convenience forms beyond those tabulated) and hooks H3/H4 for the line association. '
